@@ -20,6 +20,7 @@ Record txobs := {
 }.
 
 Record tcase := {
+  tc_schema : N * N;      (* the scope's address schema (external, internal address type) *)
   tc_genesis_time : Z;
   tc_birthday : Z;
   tc_q0 : list query;     (* boundary before the first transaction *)
@@ -52,7 +53,7 @@ Fixpoint check_txs (i : nat) (pre_k : bool) (l : list (txn * txobs)) (s : state)
   end.
 
 Definition case_failures (c : tcase) : list (nat * nat) :=
-  let d0 := created 0 (tc_genesis_time c) (tc_birthday c) in
+  let d0 := created (tc_schema c) 0 (tc_genesis_time c) (tc_birthday c) in
   let s0 := opened d0 in
   let '(m0, qa0) := run_queries (tc_q0 c) (disk_of s0) (mem_of s0) in
   (* the running manager was just opened: both columns are [reopen d0] *)
